@@ -10,7 +10,7 @@
    fragment: a map entry that is a struct held by value has scalar/string/bytes fields only, no
    []byte and no map held by value as slice element, no []byte as map value. *)
 From Coq Require Import List Bool String Ascii ZArith Arith Floats.SpecFloat.
-From Verif Require Import Util Ints Floats Node GoSrc Value Outcome Nav LCSound SetEmit SetSpec SetSound SetMono Shapes GenUnits GenC03.
+From Verif Require Import Util Ints Floats Node GoSrc Value Outcome Nav LCSound SetEmit SetSpec SetSound SetMono SetGet Shapes GenUnits GenC03 GenC03x.
 Import ListNotations.
 Local Open Scope string_scope.
 
@@ -27,6 +27,22 @@ Theorem C03_frame_and_store : forall s buf n v path,
   end.
 Proof. exact set_method_sound. Qed.
 Print Assumptions C03_frame_and_store.
+
+(* Set then get.  The path denotes an existing scalar, string or bytes element [en] (not behind a
+   nil pointer: its content is x) and the assigned value converts to the element's type
+   ([conv] of Spec/SetSpec.v gives c): after Set / SetWithBuffer, with or without a buffer,
+   reading that path in the new object yields the converted value (equal canonical text; for a
+   pointer element a pointer to it). *)
+Theorem C03_set_then_get : forall s buf n v path en ev x c,
+  wfn n = true -> sound_set n = true -> root_ok n = true -> wtb n v = true ->
+  nav n v path = NElem en ev -> is_leaf_node en = true ->
+  ev = (if n_ptr en then VPtr (Some x) else x) ->
+  conv en (aval_of_src s) = Some c ->
+  exists v' e ev', set_method n v path s buf = Ret v' e /\
+                   nav n v' path = NElem en ev' /\
+                   val_eqb ev' (if n_ptr en then VPtr (Some c) else c) = true.
+Proof. exact set_then_get. Qed.
+Print Assumptions C03_set_then_get.
 
 (* The frame clause alone, as the stream judges it on the real objects ([frame_ok]: the end of the
    path is free): whatever the path and the value, no element off the path changes. *)
@@ -47,22 +63,10 @@ Theorem C03_no_panic : forall s buf n v path,
 Proof. exact set_method_no_panic. Qed.
 Print Assumptions C03_no_panic.
 
-(* The leaf conversion of the model against the conversion the text speaks of: they differ on one
-   class, kept as an open finding owned by C19 - without a buffer a number assigned to a string
-   element is APPENDED to the old content. *)
-Theorem C03_refuted_string_append : exists n v path s,
-  wfn n = true /\ sound_set n = true /\ root_ok n = true /\ wtb n v = true /\
-  exists o, set_demand n v path (aval_of s) = Some o /\ set_method n v path s false <> Ret o None /\
-            set_method n v path s true = Ret o None.
-Proof.
-  exists (root_node ("T", TStruct [("S", TScalar SString)])), (VStruct [VStr "old"]), ["S"], (SrcInt KInt32 42).
-  vm_compute. repeat split; try reflexivity. eexists. repeat split; try reflexivity. discriminate.
-Qed.
-Print Assumptions C03_refuted_string_append.
-
 (* Outside the sound fragment the (repaired) emitter still loses updates: below a non-scalar field
    of a struct that is held BY VALUE in a map the assignment goes to a copy of the entry that is
-   never stored back.  (No generated unit of the stream has this shape.) *)
+   never stored back.  (Open finding nested_in_map_entry: the stream c03x runs the real generated
+   inspectors of two such types, Gen/GenC03x.v, and observes exactly this.) *)
 Theorem C03_refuted_nested_in_map_entry : exists n v path s,
   wfn n = true /\ root_ok n = true /\ wtb n v = true /\ sound_set n = false /\
   set_method n v path s true = Ret v None /\
@@ -79,6 +83,11 @@ Print Assumptions C03_refuted_nested_in_map_entry.
    correspondence stream runs the generated code of) is in the sound fragment. *)
 Example C03_units_sound :
   forallb (fun u => wfn (root_node u) && sound_set (root_node u) && root_ok (root_node u)) (supported_units 0) = true.
+Proof. vm_compute. reflexivity. Qed.
+
+(* the two own units of the stream c03x are well-formed and outside the sound fragment *)
+Example C03_xunits_unsound :
+  forallb (fun u => wfn (root_node u) && root_ok (root_node u) && negb (sound_set (root_node u))) xunits = true.
 Proof. vm_compute. reflexivity. Qed.
 
 (* set then get, frame, creation on the path - on a concrete object *)
